@@ -81,7 +81,14 @@ func c20Run(page string, c *c20Sym) c20Result {
 func HarnessC20Unlikely() {
 	mk := c20Markers[vx.Choose("marker", vx.Param("markers", len(c20Markers)))]
 	inner := c20Inner[vx.Choose("inner", vx.Param("inners", len(c20Inner)))]
-	place := vx.Choose("place", vx.Param("places", 4))
+	place := vx.Choose("place", vx.Param("places", 5))
+	if place == 4 && !strings.HasPrefix(mk[0], "role=") {
+		// class/id markers are exempt inside tables by design; only role markers are pruned there
+		vx.Assume(false)
+	}
+	if place == 4 && (strings.Contains(mk[0], "navigation")) {
+		mk = [2]string{`role="dialog"`, `role="zzneutral"`} // landmark roles also change the table's classification
+	}
 	main1, main2 := `<p>alpha alpha</p>`, `<p>beta beta</p>`
 	build := func(marked string) string {
 		s := `<html><head><title>T</title></head><body>`
@@ -94,6 +101,8 @@ func HarnessC20Unlikely() {
 			s += `<div>` + main1 + marked + main2 + `</div>`
 		case 3:
 			s += `<div>` + main1 + `<section><div>` + marked + `</div></section>` + main2 + `</div>`
+		case 4:
+			s += `<div>` + main1 + `<table><tr><td>` + marked + `</td></tr></table>` + main2 + `</div>`
 		}
 		return s + `</body></html>`
 	}
